@@ -31,7 +31,8 @@ FN_D2B = {2: 'dec2bin', 8: 'dec2oct', 16: 'dec2hex'}
 FN_B2B = {(2, 8): 'bin2oct', (2, 16): 'bin2hex', (8, 2): 'oct2bin', (8, 16): 'oct2hex', (16, 2): 'hex2bin',
           (16, 8): 'hex2oct'}
 ALPHA = {2: '01', 8: '01234567', 16: '0123456789ABCDEFabcdef'}
-ILLEGAL = [' ', '_', '+', '-', '2', '8', 'g', 'G', '.', 'x', 'b', 'o', '١', '\n', 'z']
+ILLEGAL = [' ', '_', '+', '-', '2', '8', 'g', 'G', '.', 'x', 'b', 'o', '١', '\n', 'z',
+           '\ufb00', '\ufb01', 'ſ', 'ı', 'İ', 'Ａ', 'ａ', '１', 'Ⅰ', 'ß', '\u00b2', '\u0660', '\u2160', 'ǅ']   # case-mapping / digit look-alikes
 MASK = {2: 512, 8: 0x20000000, 16: 0x8000000000}
 
 
@@ -140,6 +141,7 @@ def cases(tier, rng):
         for n in (0, 10, 1010, 1000000000, 1111111110, 7770, 100):
             if all(ch in ALPHA[bi] for ch in str(n)):
                 yield case('b2b', n_(n), bi=bi, bo=bo, fl=True)
+    yield from twin_cases()
     # --- base to base
     for (bi, bo) in FN_B2B:
         al = ALPHA[bi]
@@ -152,6 +154,31 @@ def cases(tier, rng):
         for v in ['z', 's:', 'b:1', 'n:11/1', 'n:7/2', 'e:na', s_('1 '), s_('0b1'), s_('g')]:
             for p in (None, 'n:3/1', s_('a')):
                 yield case('b2b', v, places=p, bi=bi, bo=bo)
+
+
+TWINS = [('b:1', 'n:1/1'), ('b:0', 'n:0/1'), ('b:1', 'n:1/1f'), ('b:0', 'n:0/1f'), ('n:1/1', 'n:1/1f'), ('z', 'n:0/1'),
+         ('z', 'b:0'), ('s:49', 'n:1/1'), ('s:48', 'n:0/1'), ('s:49,48', 'n:10/1'), ('s:', 'z')]
+
+
+def twin_cases():
+    """consecutive calls whose operands are == in Python but differ in type (caches keyed on value show up here)"""
+    def mk(op, tok, **kw):
+        fl = tok.endswith('f')
+        return case(op, tok[:-1] if fl else tok, fl=fl, **kw)
+    for a, b in TWINS:
+        for x, y in ((a, b), (b, a)):
+            for base in BASES:
+                for t in (x, y, x):
+                    yield mk('b2d', t, b=base)
+                for t in (x, y, x):
+                    yield mk('d2b', t, b=base)
+                for t in (x, y, x):
+                    yield mk('d2b', t, b=base, places='n:4/1')
+            for (bi, bo) in FN_B2B:
+                for t in (x, y, x):
+                    yield mk('b2b', t, bi=bi, bo=bo)
+                for t in (x, y, x):
+                    yield mk('b2b', t, bi=bi, bo=bo, places='n:10/1')
 
 
 def _arg(c):
